@@ -364,37 +364,44 @@ def _check_find_answer(res, S, r, n_op):
     sols = [v.sol for v in S.vars]
     res.log("op", n_op, "find_answer", r, sols, len(M))
     tagb = "z3" if S.backend == "z3" else "sim"
+    check_find_answer(res, "C01", tagb, S.decls, S.constraints, r, sols, n_op, M)
+
+
+def check_find_answer(res, prop, tagb, decls, constraints, r, sols, n_op, M):
+    """The C01 oracle; also used by C03's end-to-end configuration (kinds C03/e2e-...)."""
+    pre = f"{prop}/" + ("e2e-" if prop != "C01" else "")
+    total = refsem.domain_product(decls)
     if r is not True and r is not False:
-        res.violate("C01/wrong-sat-verdict", f"op#{n_op} find_answer returned {r!r} (not a bool) [{tagb}]")
+        res.violate(pre + "wrong-sat-verdict", f"op#{n_op} find_answer returned {r!r} (not a bool) [{tagb}]")
         return
     if r != bool(M):
         res.violate(
-            "C01/wrong-sat-verdict",
+            pre + "wrong-sat-verdict",
             f"op#{n_op} find_answer returned {r} but the reference has {len(M)} models of {total} assignments [{tagb}]",
         )
         return
     if not r:
         return
-    for i, (d, val) in enumerate(zip(S.decls, sols)):
+    for i, (d, val) in enumerate(zip(decls, sols)):
         if val is None:
-            res.violate("C01/sol-missing", f"op#{n_op} variable #{i} has sol None after a True answer [{tagb}]")
+            res.violate(pre + "sol-missing", f"op#{n_op} variable #{i} has sol None after a True answer [{tagb}]")
             return
         if d["t"] == "b":
             if type(val) is not bool:
-                res.violate("C01/sol-wrong-type", f"op#{n_op} boolean #{i} has sol {val!r} of type {type(val).__name__} [{tagb}]")
+                res.violate(pre + "sol-wrong-type", f"op#{n_op} boolean #{i} has sol {val!r} of type {type(val).__name__} [{tagb}]")
                 return
         else:
             if type(val) is not int:
-                res.violate("C01/sol-wrong-type", f"op#{n_op} integer #{i} has sol {val!r} of type {type(val).__name__} [{tagb}]")
+                res.violate(pre + "sol-wrong-type", f"op#{n_op} integer #{i} has sol {val!r} of type {type(val).__name__} [{tagb}]")
                 return
             if not d["lo"] <= val <= d["hi"]:
-                res.violate("C01/sol-out-of-domain", f"op#{n_op} integer #{i} has sol {val} outside [{d['lo']}, {d['hi']}] [{tagb}]")
+                res.violate(pre + "sol-out-of-domain", f"op#{n_op} integer #{i} has sol {val} outside [{d['lo']}, {d['hi']}] [{tagb}]")
                 return
     if tuple(sols) not in set(M):
-        pred_each = [refsem.compile_one(c) for c in S.constraints]
+        pred_each = [refsem.compile_one(c) for c in constraints]
         bad = [j for j, p in enumerate(pred_each) if not p(tuple(sols))]
         res.violate(
-            "C01/model-violates-constraints",
+            pre + "model-violates-constraints",
             f"op#{n_op} sol={sols} violates posted constraint(s) #{bad} [{tagb}]",
         )
 
